@@ -65,3 +65,8 @@ Definition findings : list string :=
 (* no attribute is classified `finding` (decides the table half of the full statement) *)
 Definition no_finding_b : bool :=
   forallb (fun a => match class_of a with Some Finding | None => false | Some _ => true end) attr_names.
+
+(* every attribute classified `finding` is one of the explicitly listed by_design ones, and conversely *)
+Definition only_by_design_b : bool :=
+  forallb (fun a => match class_of a with Some Finding => mem a by_design | Some _ => true | None => false end) attr_names
+  && forallb (fun a => match class_of a with Some Finding => true | _ => false end) by_design.
